@@ -410,6 +410,23 @@ def run(tier, replay):
     for r in hist_rows:
         skipped = sum(1 for st in r["steps"] if st["res"] == 4)
         kinds["hist:env-skipped-steps"] += skipped
+        # listed finding: paying one's own invoice, process_invoice_tx adjusts the offset with a context
+        # stripped of its inputs and outputs: offset(I2) = offset(I1) - sec_key
+        def self_paid(h):
+            import re as _re
+            mm = _re.match(r"w(\d+)\.flow(\d+)\.", h["secret"])
+            if not mm or not h["where"].startswith("msg:I2:offset"):
+                return False
+            wl, fl = int(mm.group(1)), int(mm.group(2))
+            ops = r["case"].get("ops", [])
+            return any(o[0] == 3 and o[1] == wl and o[2] == fl for o in ops) and \
+                any(o[0] == 4 and o[1] == wl and o[2] == fl for o in ops)
+        kh = [h for h in r["hits"] if self_paid(h)]
+        if kh:
+            V.known_finding("the Invoice2 slate of a self-paid invoice carries offset(I1) minus the paying context's secret "
+                            "key: one subtraction of two slate offsets recovers a pending transaction's blinding key",
+                            "C12-self-paid-invoice-offset-reveals-key")
+            r["hits"] = [h for h in r["hits"] if not self_paid(h)]
         if r["hits"]:
             oracle_fail.append({"case": r["case"], "failures": [
                 "%s of wallet %s found in %s form in %s (step %s%s)" % (
